@@ -14,7 +14,9 @@ EXPLANATION = ('Each solver is executed on symbolic reals (parameters, position,
                'p != (gamma-1) rho e (or the closure the solver declares). unsat = the closure holds for every '
                'real input on that path.  Likewise: assembled Riemann fields at a user point (each side its own gamma), EHEP, Mader constant state, '
                'SDRZ (c^2 rho = gamma p and Bernoulli with heat release), EP piston states on the independently stated Mie-Gruneisen '
-               'surface, general-EOS Riemann states at the wave positions (JWL form in the thorough tier).')
+               'surface, general-EOS Riemann states at the wave positions (JWL form in the thorough tier), and the public GenEOS_Solver._run '
+               'on a stub driver with an arbitrary self-similar 3-node table (parameters reach the driver unchanged; every returned field '
+               'is the interpolant of its own table, energies of either sign).')
 BOUNDS = ['arrays of 1 point (the closure is pointwise)', 'geometry enumerated 1,2,3']
 OUTSIDE = ['values produced inside SciPy integrations (Sedov/Guderley/RMTV profiles): only the Python-level '
            'closure that derives one returned field from the others is checked',
